@@ -182,6 +182,9 @@ class Verifier(Calls):
         if found is None:
             raise Unsupported("%s: contract target not found in /repo" % c.target)
         mod, cls, fnode = found
+        from .calls import opaque_decorators
+        if opaque_decorators(fnode):
+            raise Unsupported("%s is decorated with %s (decorator semantics not modelled)" % (c.target, ", ".join(opaque_decorators(fnode))))
         self.func_info = dict(target=c.target, file=os.path.relpath(mod.path, self.repo.root), sha256=mod.sha256,
                               lines=[fnode.lineno, fnode.end_lineno])
         f = FuncV(fnode, mod, cls, None, fnode.name if not key.endswith("$set") else key.split(".")[-1])
